@@ -387,6 +387,27 @@ fn directed(run: &mut Run, tier: Tier) {
         parses.push(vec![PSeq { ll: window - start, of: window, ml: 64 }]);
         cases.push((format!("window {window} (not a power of two), one match at offset = window"), v, block, window as u64, parses));
     }
+    // a block emitted compressed but with raw literals (1112 literals over 200 values: the table description costs
+    // more than Huffman coding saves; an overlapping match makes the block worth compressing), then a block over
+    // the same values with eight of them dominating, then the first kind again: no table may be assumed that was
+    // never written
+    for (top, rare) in [(400usize, 3usize), (800, 4), (3000, 6)] {
+        let p1 = cmp::multiset200(&|s| if s < 8 { 7 } else if s < 104 { 6 } else { 5 }, 71);
+        let p2 = cmp::multiset200(&|s| if s < 8 { top } else { rare }, 72 + top as u64);
+        let size = p2.len() + 1000;
+        let mut v = vec![];
+        let mut parses: Vec<Parse> = vec![];
+        for which in [1, 2, 1, 2] {
+            let p = if which == 1 { &p1 } else { &p2 };
+            let start = v.len();
+            v.extend_from_slice(p);
+            while v.len() < start + size {
+                v.push(v[v.len() - p.len()]);
+            }
+            parses.push(vec![PSeq { ll: p.len(), of: p.len(), ml: size - p.len() }]);
+        }
+        cases.push((format!("raw-literals compressed block, then literals over the same 200 values with eight at {top} and the others at {rare}, twice"), v, size, 1 << 17, parses));
+    }
     cases.push(("offset 1 run".into(), { let mut v = b"ab".to_vec(); v.extend(std::iter::repeat(b'b').take(500)); v.extend_from_slice(b"cd"); v }, B, 1024, vec![vec![PSeq { ll: 2, of: 1, ml: 500 }]]));
     // Huffman block, raw-fallback block, Huffman-again block (literals just above 1024), custom matcher finds nothing
     {
